@@ -1,6 +1,6 @@
 (* Props/C06.v -- property C06: server transactions deliver the final response reliably. Statements only. *)
 From Coq Require Import List NArith.
-From EZK Require Import Model.Forms8 Proofs.Forms8 Gen.Tables Model.Tsx Proofs.C05 Proofs.C06 Model.C12o Proofs.C12o.
+From EZK Require Import Model.Forms10 Proofs.Forms10 Model.Forms8 Proofs.Forms8 Gen.Tables Model.Tsx Proofs.C05 Proofs.C06 Model.C12o Proofs.C12o.
 Import ListNotations.
 Open Scope N_scope.
 
@@ -84,3 +84,13 @@ Proof. exact provisional_here. Qed.
 Theorem C06_provisional_draining_refuted : forall waiting, (0 < waiting)%nat ->
   fst (provisional_form false waiting) <> 1%nat /\ final_at_call (snd (provisional_form false waiting)) <> (1 + waiting)%nat.
 Proof. exact provisional_draining. Qed.
+
+(* "over a reliable transport the response is sent once and never retransmitted" - also when copies of the request are waiting *)
+Theorem C06_reliable_guard : nonink_reliable_returns_at_once = true.
+Proof. reflexivity. Qed.
+
+Theorem C06_reliable_sent_once : nonink_reliable_returns_at_once = true -> forall waiting, reliable_extra_sends waiting = 0%nat.
+Proof. exact reliable_once_here. Qed.
+
+Theorem C06_reliable_absorbing_refuted : forall waiting, reliable_extra_sends_form false waiting = waiting.
+Proof. exact reliable_answers_waiting. Qed.
